@@ -670,60 +670,127 @@ Proof.
   - apply IH; [now inversion Hn | intros H; apply Hv; now right].
 Qed.
 
-(** as coded the step does NOT preserve feasibility: with 2 of 3 candidates selected the single remaining
-    allele is written to both loci *)
-Lemma mutAB_refuted : exists (setspace x : list Z) (lociix alleleix : list nat),
-  feasible setspace 2 x /\ NoDup setspace /\
-  tiled_ok (length x) (length x) lociix = true /\ tiled_ok (length (complement setspace x)) (length x) alleleix = true /\
-  ~ NoDup (mutAB_hillclimb setspace x lociix alleleix).
+(** every trial row of the repaired step is the input with ONE position exchanged for a candidate outside it,
+    hence feasible — for all loci draws (in range or not) and all allele draws in range, repeated or not *)
+Lemma mutAB_trial_feasible (setspace : list Z) (k : nat) (x : list Z) (l a : nat) :
+  feasible setspace k x -> (a < length (complement setspace x))%nat ->
+  feasible setspace k (set_nth l x (nth a (complement setspace x) 0)).
 Proof.
-  exists [0; 1; 2], [0; 1], [0%nat; 1%nat], [0%nat; 0%nat].
+  intros (F1 & F2 & F3) Ha.
+  assert (Hc : In (nth a (complement setspace x) 0) (complement setspace x)) by (apply nth_In, Ha).
+  apply complement_In in Hc as [Hc1 Hc2].
+  repeat split.
+  - apply set_nth_NoDup; assumption.
+  - intros z Hz. apply set_nth_In in Hz as [->|Hz]; [exact Hc1 | now apply F2].
+  - now rewrite set_nth_length.
+Qed.
+Lemma mutAB_trials_feasible (setspace : list Z) (k : nat) (x : list Z) (lociix alleleix : list nat) :
+  feasible setspace k x -> (forall j, In j alleleix -> (j < length (complement setspace x))%nat) ->
+  Forall (feasible setspace k) (mutAB_trials x (complement setspace x) lociix alleleix).
+Proof.
+  intros Hf Hr. unfold mutAB_trials. apply Forall_forall. intros t Ht.
+  apply in_map_iff in Ht as ([l a] & <- & Hin). cbn [fst snd].
+  apply mutAB_trial_feasible; [exact Hf | apply Hr; eapply in_combine_r; exact Hin].
+Qed.
+(** the step returns a feasible subset whichever row the selection rule [sel] picks (MutatorA, MutatorB) *)
+Lemma mutAB_hillclimb_feasible sel (ev : list Z -> evalT) (setspace : list Z) (k : nat) (x : list Z)
+    (lociix alleleix : list nat) (draw : nat) :
+  feasible setspace k x -> (forall j, In j alleleix -> (j < length (complement setspace x))%nat) ->
+  feasible setspace k (mutAB_hillclimb sel ev setspace x lociix alleleix draw).
+Proof.
+  intros Hf Hr. unfold mutAB_hillclimb.
+  pose proof (mutAB_trials_feasible setspace k x lociix alleleix Hf Hr) as HT.
+  destruct (complement setspace x) as [|a0 al]; [exact Hf|].
+  match goal with |- feasible _ _ (nth ?n ?T x) => destruct (nth_in_or_default n T x) as [Hin | ->] end.
+  - rewrite Forall_forall in HT. apply HT, Hin.
+  - exact Hf.
+Qed.
+(** when the subset is the whole candidate set there is nothing to exchange: the individual is returned *)
+Lemma mutAB_hillclimb_full sel (ev : list Z -> evalT) (setspace x : list Z) (lociix alleleix : list nat) (draw : nat) :
+  incl setspace x -> mutAB_hillclimb sel ev setspace x lociix alleleix draw = x.
+Proof.
+  intros Hi. unfold mutAB_hillclimb.
+  assert (E : complement setspace x = []).
+  { unfold complement. apply filter_none. intros e He. apply negb_false_iff, memZ_In, Hi, He. }
+  now rewrite E.
+Qed.
+
+(** the selection rules pick a position of the non-dominated front (MutatorB: the former code indexed the
+    front with positions of the unfiltered population) *)
+Lemma argmin_from_lt : forall (l : list Z) (best i : nat) (bv : Z), (best < i)%nat ->
+  (argmin_from best bv i l < i + length l)%nat.
+Proof.
+  induction l as [|v t IH]; intros best i bv H; cbn [argmin_from length]; [lia|].
+  destruct (v <? bv).
+  - specialize (IH i (S i) v). lia.
+  - specialize (IH best (S i) bv). lia.
+Qed.
+Lemma argminZ_lt (l : list Z) : l <> [] -> (argminZ l < length l)%nat.
+Proof.
+  destruct l as [|v t]; [congruence|]. intros _. unfold argminZ. cbn [length].
+  pose proof (argmin_from_lt t 0%nat 1%nat v). lia.
+Qed.
+Lemma mutB_sel_in_front (F : list (list Z)) (draw : nat) : front_ix F <> [] -> In (mutB_sel F draw) (front_ix F).
+Proof.
+  intros H. unfold mutB_sel. apply nth_In.
+  rewrite <- (map_length (fun i => nth draw (nth i F []) 0) (front_ix F)).
+  apply argminZ_lt. destruct (front_ix F); [congruence | discriminate].
+Qed.
+Lemma mutA_sel_in_front (F : list (list Z)) (draw : nat) : (draw < length (front_ix F))%nat -> In (mutA_sel F draw) (front_ix F).
+Proof. intros H. unfold mutA_sel. now apply nth_In. Qed.
+Lemma front_ix_lt (F : list (list Z)) (i : nat) : In i (front_ix F) -> (i < length F)%nat.
+Proof. unfold front_ix. intros H. apply filter_In in H as [H _]. apply in_seq in H. lia. Qed.
+(** a dominating row has a strictly smaller component sum, so a row of least sum is never dominated: the front
+    of a non-empty population is non-empty and the selection is always defined *)
+Lemma zdom_sum : forall f g, zdom f g = true -> sumZ f < sumZ g.
+Proof.
+  unfold zdom. intros f g H. apply andb_true_iff in H as [A B]. revert g A B.
+  assert (LE : forall p q, all2z Z.leb p q = true -> sumZ p <= sumZ q).
+  { induction p as [|a s IH]; intros [|b t] A; cbn [all2z] in A; try discriminate A; [apply Z.le_refl|].
+    apply andb_true_iff in A as [A1 A2]. apply Z.leb_le in A1. specialize (IH t A2). rewrite !sumZ_cons. lia. }
+  induction f as [|a s IH]; intros [|b t] A B; cbn [all2z any2z] in *; try discriminate A; try discriminate B.
+  apply andb_true_iff in A as [A1 A2]. apply Z.leb_le in A1. rewrite !sumZ_cons.
+  apply orb_true_iff in B as [B|B].
+  - apply Z.ltb_lt in B. specialize (LE s t A2). lia.
+  - specialize (IH t A2 B). lia.
+Qed.
+Lemma min_sum_row : forall (F : list (list Z)), F <> [] ->
+  exists i, (i < length F)%nat /\ forall g, In g F -> sumZ (nth i F []) <= sumZ g.
+Proof.
+  induction F as [|f t IH]; [congruence|]. intros _.
+  destruct t as [|f' t'].
+  - exists 0%nat. split; [cbn; lia|]. intros g [<-|[]]. cbn [nth]. apply Z.le_refl.
+  - destruct IH as (i & Hi & Hm); [discriminate|].
+    destruct (Z_le_gt_dec (sumZ f) (sumZ (nth i (f' :: t') []))) as [L|G].
+    + exists 0%nat. split; [cbn; lia|]. intros g [<-|Hg]; cbn [nth]; [apply Z.le_refl|]. specialize (Hm g Hg). lia.
+    + exists (S i). split; [cbn in *; lia|]. intros g Hg; change (nth (S i) (f :: f' :: t') []) with (nth i (f' :: t') []); destruct Hg as [<-|Hg]; [lia | now apply Hm].
+Qed.
+Lemma front_ix_nonempty (F : list (list Z)) : F <> [] -> front_ix F <> [].
+Proof.
+  intros HF. destruct (min_sum_row F HF) as (i & Hi & Hm).
+  assert (Hin : In i (front_ix F)).
+  { unfold front_ix. apply filter_In. split; [apply in_seq; lia|].
+    apply negb_true_iff. destruct (existsb _ F) eqn:E; [|reflexivity].
+    apply existsb_exists in E as (g & Hg & D). apply zdom_sum in D. specialize (Hm g Hg). lia. }
+  intros E. now rewrite E in Hin.
+Qed.
+
+(** the FORMER code (whole-column assignment) did NOT preserve feasibility: with 2 of 3 candidates selected the
+    single remaining allele was written to both loci — regression witness about [old_mutAB_hillclimb] *)
+Lemma old_mutAB_refuted_witness :
+  feasible [0; 1; 2] 2 [0; 1] /\ NoDup [0; 1; 2] /\
+  tiled_ok (length [0; 1]%Z) (length [0; 1]%Z) [0%nat; 1%nat] = true /\
+  tiled_ok (length (complement [0; 1; 2] [0; 1])) (length [0; 1]%Z) [0%nat; 0%nat] = true /\
+  ~ NoDup (old_mutAB_hillclimb [0; 1; 2] [0; 1] [0%nat; 1%nat] [0%nat; 0%nat]).
+Proof.
   split; [apply feasible_b_spec; reflexivity|]. split; [apply nodupb_NoDup; reflexivity|].
   split; [reflexivity|]. split; [reflexivity|].
   intros H. apply nodupb_NoDup in H. vm_compute in H. discriminate.
 Qed.
-
-(** it does when the allele draws are pairwise distinct and in range, i.e. when the number of hill-climb
-    steps does not exceed the number of unused candidates (a single tile of tiled_choice): exactly the guard
-    2*ndecn <= len(decn_space) for the default nhcstep = ndecn *)
-Lemma mutAB_row_partial (cand : list Z) (k : nat) (alleles : list Z) : forall (las : list (nat * nat)) (row : list Z),
-  NoDup alleles -> incl alleles cand ->
-  NoDup (map snd las) -> (forall la, In la las -> (snd la < length alleles)%nat) ->
-  feasible cand k row -> (forall la, In la las -> ~ In (nth (snd la) alleles 0) row) ->
-  feasible cand k (fold_left (fun r la => set_nth (fst la) r (nth (snd la) alleles 0)) las row).
+(** ... while the repaired step is feasible on the very same input and draws, whichever row is selected *)
+Lemma new_mutAB_on_old_witness : forall sel ev draw,
+  feasible [0; 1; 2] 2 (mutAB_hillclimb sel ev [0; 1; 2] [0; 1] [0%nat; 1%nat] [0%nat; 0%nat] draw).
 Proof.
-  induction las as [|la las IH]; intros row Ha Hi Hn Hr Hf Hfresh; cbn [fold_left]; [exact Hf|].
-  cbn [map] in Hn. inversion Hn as [|? ? Hla Hn']; subst.
-  destruct Hf as (F1 & F2 & F3).
-  apply IH; try assumption.
-  - intros la' H. apply Hr. now right.
-  - repeat split.
-    + apply set_nth_NoDup; [exact F1 | apply Hfresh; now left].
-    + intros z Hz. apply set_nth_In in Hz as [->|Hz]; [|now apply F2].
-      apply Hi, nth_In, Hr. now left.
-    + now rewrite set_nth_length.
-  - intros la' Hin Hz. apply set_nth_In in Hz as [Hz|Hz]; [|apply (Hfresh la'); [now right | exact Hz]].
-    apply (proj1 (NoDup_nth alleles 0) Ha) in Hz; [|apply Hr; now right | apply Hr; now left].
-    apply Hla. rewrite <- Hz. apply in_map, Hin.
-Qed.
-Lemma mutAB_partial (setspace x : list Z) (k : nat) (lociix alleleix : list nat) :
-  NoDup setspace -> feasible setspace k x ->
-  NoDup alleleix -> (forall j, In j alleleix -> (j < length (complement setspace x))%nat) ->
-  feasible setspace k (mutAB_hillclimb setspace x lociix alleleix).
-Proof.
-  intros Hs Hf Hn Hr. unfold mutAB_hillclimb, mutAB_row.
-  apply (mutAB_row_partial setspace k (complement setspace x)).
-  - apply NoDup_filter, Hs.
-  - intros z Hz. now apply complement_In in Hz.
-  - clear -Hn. revert alleleix Hn. induction lociix as [|l t IH]; intros [|a u] Hn; cbn [combine map]; try constructor.
-    + intros H. inversion Hn as [|? ? Ha Hu]; subst. apply Ha.
-      clear -H. revert u H. induction t as [|l' t' IHt]; intros [|a' u'] H; cbn [combine map] in H; try contradiction.
-      destruct H as [H|H]; [left; exact H | right; now apply IHt].
-    + apply IH. now inversion Hn.
-  - intros [l a] Hin. apply Hr. now apply in_combine_r in Hin.
-  - exact Hf.
-  - intros [l a] Hin Hz. cbn [snd] in *.
-    assert (Hc : In (nth a (complement setspace x) 0) (complement setspace x)).
-    { apply nth_In, Hr. now apply in_combine_r in Hin. }
-    apply complement_In in Hc. tauto.
+  intros. apply mutAB_hillclimb_feasible; [apply feasible_b_spec; reflexivity|].
+  intros j Hj. cbn in *. intuition lia.
 Qed.
